@@ -24,6 +24,7 @@ import (
 	"math/big"
 	"math/rand"
 	"os"
+	"os/exec"
 	"path/filepath"
 	"sort"
 	"strconv"
@@ -36,7 +37,55 @@ import (
 )
 
 func init() {
+	if len(os.Args) > 1 && os.Args[1] == "__cryptochild" {
+		sys_cryptoChildMain()
+		os.Exit(0)
+	}
 	engines["crypto"] = &Engine{Gen: sys_genCrypto, ExecX: sys_execCrypto}
+}
+
+// sys_cryptoChildMain: `bv __cryptochild <dir> <vdir> <comp> <keyhex>...` tries to open the
+// database with each key in turn and prints one line per key: ok | mismatch | err <text>.
+// Run in a child process because a wrong key that is *not* rejected makes badger decode
+// garbage, which may kill the process from a background goroutine.
+func sys_cryptoChildMain() {
+	dir, vdir := os.Args[2], os.Args[3]
+	comp, _ := strconv.Atoi(os.Args[4])
+	s := &sys_cryptoSess{rot: 240 * time.Hour, comp: options.CompressionType(comp)}
+	for _, kh := range os.Args[5:] {
+		var key []byte
+		if kh != "-" {
+			key = unhx(kh)
+		}
+		db, err := badger.Open(s.opts(dir, vdir, key))
+		switch {
+		case err == nil:
+			db.Close()
+			fmt.Println("ok")
+		case errors.Is(err, badger.ErrEncryptionKeyMismatch):
+			fmt.Println("mismatch")
+		default:
+			fmt.Println("err " + strings.ReplaceAll(err.Error(), "\n", " "))
+		}
+	}
+}
+
+// sys_tryKeys runs the child; one result per key ("crash" when the child died).
+func sys_tryKeys(dir, vdir string, comp options.CompressionType, keys [][]byte) []string {
+	args := []string{"__cryptochild", dir, vdir, strconv.Itoa(int(comp))}
+	for _, k := range keys {
+		args = append(args, hx(k))
+	}
+	cmd := exec.Command(os.Args[0], args...)
+	outB, _ := cmd.Output()
+	res := strings.Split(strings.TrimSpace(string(outB)), "\n")
+	if len(res) == 1 && res[0] == "" {
+		res = nil
+	}
+	for len(res) < len(keys) {
+		res = append(res, "crash")
+	}
+	return res
 }
 
 // ---------------------------------------------------------------- crypto: unit ops
@@ -738,15 +787,12 @@ func sys_cryptoSession(kv map[string]string, st *Stats) (string, []string) {
 		qd, qv := s.qdirs()
 		// ---- wrong keys: mismatch, and not a byte of the directories changes
 		before := sys_dirHash(qd, qv)
-		for _, wk := range [][]byte{sys_flipFirst(key), nil, bytes.Repeat([]byte{9}, 48-len(key))} {
-			db, err := badger.Open(s.opts(qd, qv, wk))
-			if err == nil {
-				db.Close()
-				s.fail("C23-wrong-key", fmt.Sprintf("Open with a wrong key (%d bytes, right key has %d) succeeded", len(wk), len(key)))
-			} else if !errors.Is(err, badger.ErrEncryptionKeyMismatch) {
-				s.fail("C23-wrong-key", fmt.Sprintf("Open with a wrong key (%d bytes): %v (want ErrEncryptionKeyMismatch)", len(wk), err))
+		wrong := [][]byte{sys_flipFirst(key), nil, bytes.Repeat([]byte{9}, 48-len(key))}
+		for i, res := range sys_tryKeys(qd, qv, s.comp, wrong) {
+			if res != "mismatch" {
+				s.fail("C23-wrong-key", fmt.Sprintf("Open with a wrong key (%d bytes, the right key has %d): %s (want ErrEncryptionKeyMismatch)", len(wrong[i]), len(key), res))
 			}
-			st.Inc("wrong-key-open")
+			st.Inc("wrong-key-open:" + strings.Fields(res)[0])
 		}
 		if sys_dirHash(qd, qv) != before {
 			s.fail("C23-wrong-key-mutates", "a failed Open with a wrong key changed files of the database directories")
@@ -764,9 +810,8 @@ func sys_cryptoSession(kv map[string]string, st *Stats) (string, []string) {
 					s.fail("C23-rotation", "rotate: WriteKeyRegistry: "+err.Error())
 				} else {
 					st.Inc("master-rotation")
-					if db, err := badger.Open(s.opts(qd, qv, key)); err == nil {
-						db.Close()
-						s.fail("C23-wrong-key", "after master-key rotation the old key still opens the database")
+					if res := sys_tryKeys(qd, qv, s.comp, [][]byte{key})[0]; res != "mismatch" {
+						s.fail("C23-wrong-key", "after master-key rotation Open with the old key: "+res+" (want ErrEncryptionKeyMismatch)")
 					}
 					key = newKey
 				}
